@@ -881,8 +881,17 @@ func (g *Gen) hostileName() string {
 
 func (g *Gen) hostile() Op {
 	u := func() uint64 {
-		if g.rng.Intn(3) == 0 {
+		switch g.rng.Intn(4) {
+		case 0:
 			return uint64(g.rng.Intn(10000))
+		case 1:
+			// around the announced limits and the boundaries of the index tree (direct, indirect, double indirect)
+			base := []uint64{g.maxfs, g.wtmax, 8 * 4096, (8 + 512) * 4096, (8 + 512 + 512*512) * 4096, (8 + 512 + 512*512 + 1) * 4096}[g.rng.Intn(6)]
+			d := []uint64{0, 1, 2, 4095, 4096, 4097, 8192}[g.rng.Intn(7)]
+			if g.rng.Intn(2) == 0 && base >= d {
+				return base - d
+			}
+			return base + d
 		}
 		return hostileU64[g.rng.Intn(len(hostileU64))]
 	}
